@@ -258,8 +258,9 @@ def handle (st : St) (j : Json) : D (St × Json) := do
         | .unknownName => "unknownName"
         | .mixed => "mixed"))]))
     | .ok r =>
-      let dead := hasDeadEnd sigma (fun a => gen.getD a false) r
-      let base := [("parse", Json.str "ok"), ("dead", Json.bool dead), ("re", Json.str (reToLean r))]
+      let dead? := hasDeadEnd? sigma (fun a => gen.getD a false) r
+      let base := [("parse", Json.str "ok"), ("dead", match dead? with | some b => Json.bool b | none => Json.str "unknown"),
+        ("re", Json.str (reToLean r))]
       match fieldD j "dfa" Json.null with
       | .null => return (st, ok (Json.mkObj base))
       | dj =>
@@ -273,7 +274,8 @@ def handle (st : St) (j : Json) : D (St × Json) := do
               | none => Json.null)]
           return (st, ok (Json.mkObj (base ++ [("equiv", Json.bool okc)] ++ extra)))
         | none =>
-          return (st, ok (Json.mkObj (base ++ [("equiv", Json.bool false), ("witness", match (distinguish d sigma r 7).orElse (fun _ => distinguishProduct d sigma r) with
+          -- the (unverified) certificate search ran out of its allowance: a verdict only if a distinguishing sequence is found
+          return (st, ok (Json.mkObj (base ++ [("equiv", Json.bool false), ("searchExhausted", Json.bool true), ("witness", match (distinguish d sigma r 7).orElse (fun _ => distinguishProduct d sigma r) with
               | some (w, a, b) => Json.arr #[eNats w, Json.bool a, Json.bool b]
               | none => Json.null)])))
   | "rematch" =>
